@@ -171,6 +171,8 @@ func runC03(p *Program, r *Report) {
 		}
 	}
 	runLenGuard(p, r, a, "R03c")
+	r.Rule("R03k", "WORK-LIST-EXHAUSTED: the work loop of the verification core falls through to the success return only on a test that looks at the work list (a cursor of the loop or the result of a call that is given one); every other way out is an error")
+	checkWorkListExhausted(p, r, "R03k", a.core)
 }
 
 // runErrChainSpine applies ERR-CHAIN to every fallible call made by a spine
